@@ -68,11 +68,14 @@ pub struct Case {
     pub nested: bool,
     /// the observed unit's header is written absolute (`:OBS` / `:BR:OBS`)
     pub colon: bool,
+    /// nested only: the default leaf's own mnemonic is omitted, the unit's header ends on the branch
+    /// (`BR 1,2` / `:BR? 1`); written absolute unless it is the first unit
+    pub omit: bool,
 }
 
 impl Case {
     pub fn to_json(&self) -> Value {
-        json!({"kind": "c06", "elems": self.elems, "req": self.req, "opt": self.opt, "pos": self.pos, "tail": self.tail, "query": self.query, "sepstyle": self.sepstyle, "nested": self.nested, "colon": self.colon})
+        json!({"kind": "c06", "elems": self.elems, "req": self.req, "opt": self.opt, "pos": self.pos, "tail": self.tail, "query": self.query, "sepstyle": self.sepstyle, "nested": self.nested, "colon": self.colon, "omit": self.omit})
     }
     pub fn from_json(v: &Value) -> Option<Case> {
         Some(Case {
@@ -85,6 +88,7 @@ impl Case {
             sepstyle: v["sepstyle"].as_u64()? as u8,
             nested: v["nested"].as_bool()?,
             colon: v["colon"].as_bool().unwrap_or(false),
+            omit: v["omit"].as_bool().unwrap_or(false),
         })
     }
     /// message text and byte offset of each element of the observed unit
@@ -98,13 +102,18 @@ impl Case {
             }
             m.extend_from_slice(nb_before.as_bytes());
             m.push(b';');
-        } else if self.nested && !self.colon {
+        } else if self.nested && !self.colon && !self.omit {
             m.extend_from_slice(b"BR:");
         }
-        if self.colon {
-            m.extend_from_slice(if self.nested { b":BR:" } else { b":" });
+        if self.nested && self.omit {
+            // the header ends on the branch; the default leaf OBS is implied
+            m.extend_from_slice(if self.colon || self.pos >= 1 { b":BR" } else { b"BR" });
+        } else {
+            if self.colon {
+                m.extend_from_slice(if self.nested { b":BR:" } else { b":" });
+            }
+            m.extend_from_slice(b"OBS");
         }
-        m.extend_from_slice(b"OBS");
         if self.query {
             m.push(b'?');
         }
@@ -352,7 +361,7 @@ pub fn enumerate(max_n: usize, all_elems: bool) -> Vec<Case> {
                             let sepstyle = ((t.len() + req as usize + pos as usize) % 2) as u8;
                             let nested = (t.len() + opt as usize + tail as usize) % 3 == 0;
                             let colon = (t.len() + req as usize + opt as usize + tail as usize + query as usize) % 2 == 1;
-                            out.push(Case {
+                            let case = Case {
                                 colon,
                                 elems: t.clone(),
                                 req,
@@ -362,7 +371,13 @@ pub fn enumerate(max_n: usize, all_elems: bool) -> Vec<Case> {
                                 query,
                                 sepstyle,
                                 nested,
-                            });
+                                omit: false,
+                            };
+                            if nested {
+                                // the same unit with the default leaf's mnemonic left out
+                                out.push(Case { omit: true, ..case.clone() });
+                            }
+                            out.push(case);
                         }
                     }
                 }
